@@ -1,5 +1,6 @@
 import CwPlus.Driver.Common
 import CwPlus.Model.Cw4Stake
+import CwPlus.Model.Cw4Raw
 /-!
 Scenario `cw4stake`: op-line parser, observation renderer and property monitors (C10, and the
 cw4-stake parts of C09 and C14) for the cw4-stake model in its world (`Cw4Stake.World`).
@@ -120,7 +121,11 @@ def obsOf (m : MState) : Args :=
      -- raw reads: the stored configuration, the recorded heights, the MEMBERS changelog
      ("cfg", s!"{s.cfg.tokensPerWeight}/{s.cfg.minBond}/{s.cfg.period.render}"),
      ("hs", joinC (m.heights.map toString)),
-     ("mlog", renderMapLog s.members.log)]
+     ("mlog", renderMapLog s.members.log),
+     -- the byte layout of the storage: `encodeObserved` of the model state (zero stakes / empty claim lists
+     -- dropped, as the harness drops them: `scen_cw4group::render_raw_keys`); probes = the first two actors.
+     -- `resyncOf` does not read this field (everything it shows is determined by the fields above).
+     ("rawkeys", RawStore.renderRawKeys (m.pool.take 2) (encodeObserved s))]
 
 /-! ## Re-synchronisation -/
 
